@@ -433,9 +433,11 @@ PROPS['C27'] = dict(
          'region that was already written; the text is appended to the data file. '
          'KNOWN FINDING (refuted, replayed on the real code): put(sender, target) writes slot 0 of the index file although slot 0 holds a message record when a message was stored before any '
          'control record -- put(1,..) put(2,..) put(10,20), reopen: get(1) fails. '
-         'NOT decided: FilePersister::initialise (what a reopen reconstructs from a given disk state, duplicate index entries), torn writes inside one write call, fsync / ordering below the '
-         'system-call interface, the purge / rotation path (C29).',
-    note='crash points are system-call boundaries of one operation; torn writes and the reopen procedure are not modelled; lseek/write are ASSUMED POSIX models',
+         'Reopen (the index-replay branch of FilePersister::initialise, extracted as a nested block, loop contract over the records of the index file): every record on disk is in the rebuilt '
+         'in-memory index with its offset and size -- when a number occurs twice the FIRST record wins -- no number appears without a record, nothing is written. With the crash invariant this '
+         'gives: after a crash at any system-call boundary of a put and a reopen, every number maps to bytes that were stored for it. '
+         'NOT decided: torn writes inside one write call, fsync / ordering below the system-call interface, the purge / rotation path (C29), open() failures beyond "initialise reports failure".',
+    note='crash points are system-call boundaries of one operation; torn writes are not modelled; lseek / read / write / open are ASSUMED POSIX models',
     trusted_base=COMMON_TRUST,
     explanation='A crash leaves the disk in the state after some completed system call, so an invariant asserted inside every system-call model is checked at every crash point of the operation.',
 )
